@@ -350,3 +350,4 @@ PROP = Prop("C10", _tests(), RULE, level="exploration", assumptions=[
     "SHA-256 of buffer contents identifies modification; buffers owned by the harness are read-only so writes also raise",
     "bitwise repeatability of the backward pass for an identical graph and cotangent (deterministic toposort)",
 ])
+PROP.reach_functions = ['autograd.core:add_outgrads', 'autograd.core:sparse_add', 'autograd.core:VSpace.mut_add', 'autograd.builtins:container_untake']
